@@ -105,6 +105,38 @@ def c19(report, rng, tier, findings):
         return has_falsy and nontrivial_filter(case, res)
     judge = QueryJudge(report, findings, 'C19', nontrivial=nontriv)
     run_query_cases(report, cases, {'caching': (False, True), 'evals': 1}, judge)
+    # second stream: ONE expression object (val = x.b) reused by two queries, in condition position in one and in value
+    # position in the other, evaluated one after the other in both orders
+    pools = []
+    for i in range(max(20, n // 6)):
+        cfg = gen.Cfg(n_vars=(1, 1), n_objs=(3, 6), depth=1, falsy=0.6, int_range=(0, 2), empty_domain=0.0)
+        base = gen.gen_case(rng, cfg, f's{i}')
+        base['vars'] = [(vid, 'A', raw) for vid, _, raw in base['vars']]
+        val = ('attr', 'b', ('var', 0))
+        lit = ('lit', rng.choice(gen.FALSY + [('i', 1)]))
+        qs = [{'sel': [('var', 0)], 'cond': [('truth', val)]},
+              {'sel': [('var', 0)], 'cond': [rng.choice([('cmp', 'eq', val, lit), ('cmp', 'ne', val, lit),
+                                                         ('in', val, ('lit', ('l', ('i', 0), ('n',), ('i', 2))))])]}]
+        order = [0, 1] if rng.random() < 0.5 else [1, 0]
+        pools.append({**base, 'pool': qs, 'hist': [('full', order[0]), ('full', order[1]), ('full', order[0])]})
+    res = pmap(c04_impl, [(c, {'caching': (False, True), 'share_terms': True}) for c in pools])
+    for case, r in zip(pools, res):
+        if 'spec_exc' in r:
+            continue
+        report.evaluations += 1
+        report.count('shared_expression_pools')
+        for key, run in r['runs'].items():
+            if 'exc' in run:
+                report.violations.append((f'implementation raised {run["exc"]}', {'what': run['exc'], 'case': case}))
+                continue
+            for si, (kind, qi, rows_) in enumerate(run['steps']):
+                report.traces += 1
+                if sorted(rows_) != sorted(r['specs'][qi]):
+                    what = (f'a shared expression object (val = x.b) used as a condition in one query and as a value in another: '
+                            f'step {si + 1} ({case["hist"][si]}, caching {key}) returned {sorted(rows_)}, expected {sorted(r["specs"][qi])}')
+                    report.violations.append((what, {'what': what, 'case': case, 'steps': run['steps'],
+                                                     'fresh_answers': r['specs']}))
+                    break
     return ['EqlModel.Props.C19'], ["falsy values in field constraints / constructor arguments are exercised by the C11/C13 checks"]
 
 
@@ -132,15 +164,52 @@ def has_sub(c):
     return False
 
 
+def gen_c15_cond(rng, g, depth):
+    """Conditions dense in sub-queries: sub-queries as operands of and_/or_ at every level, selecting a variable
+    while their conditions may bind OTHER variables that the enclosing query uses again."""
+    if depth <= 0:
+        c = g.atom()
+    else:
+        k = rng.choice(('and', 'or', 'or', 'and', 'atom'))
+        if k == 'atom':
+            c = g.atom()
+        else:
+            c = (k,) + tuple(gen_c15_cond(rng, g, depth - 1) for _ in range(rng.choice((2, 2, 3))))
+    if rng.random() < 0.4:
+        c = ('sub', (g.var(),), c)
+    return c
+
+
 def c15(report, rng, tier, findings):
     n = n_cases(tier, 200, 2500)
     cases = []
     i = 0
     while len(cases) < 2 * n and i < 20 * n:
         i += 1
-        nv = rng.choice((1, 2, 2))
+        nv = rng.choice((1, 2, 2, 2, 3))
         cfg = gen.Cfg(n_vars=(nv, nv), n_objs=(2, 4 if nv == 1 else 3), depth=3, subqueries=0.8, empty_domain=0.0)
         base = gen.gen_case(rng, cfg, f'c{i}')
+        r_ = rng.random()
+        if r_ < 0.35 and nv >= 2:
+            # template: a sub-query over v whose conditions bind ANOTHER variable w that it does not select, combined
+            # by & with another condition, the conjunction being the left side of | whose right side uses w again
+            cfg2 = gen.Cfg(n_vars=(2, 2), n_objs=(3, 5), depth=1, empty_domain=0.0, share_domain=0.5, preds=False)
+            base = gen.gen_case(rng, cfg2, f'c{i}')
+            v, w = rng.sample([0, 1], 2)
+            gv, gw, gvw = (gen.CondGen(rng, cfg2, ids) for ids in ([v], [w], [v, w]))
+
+            def join():
+                return ('cmp', rng.choice(('eq', 'ne', 'lt', 'ge')), ('attr', rng.choice('ab'), ('var', v)),
+                        ('attr', rng.choice('ab'), ('var', w)))
+            inner = ('and', join(), gv.atom()) if rng.random() < 0.7 else join()
+            left = ('and', ('sub', (('var', v),), inner), rng.choice([gv.atom(), ('sub', (('var', v),), gv.atom())]))
+            right = rng.choice([join(), ('and', join(), gw.atom()), gvw.atom()])
+            base['cond'] = [('or', left, right) if rng.random() < 0.8 else ('or', right, left)]
+            base['sel'] = [('var', v)] if rng.random() < 0.6 else [('var', v), ('var', w)]
+            base['entity'] = len(base['sel']) == 1
+        elif r_ < 0.8:
+            g = gen.CondGen(rng, cfg, [v[0] for v in base['vars']])
+            base['cond'] = [gen_c15_cond(rng, g, rng.randint(1, 3))]
         if not any(has_sub(c) for c in base['cond']):
             continue
         flat = dict(base)
@@ -320,6 +389,15 @@ def has_pred(c):
     return False
 
 
+def subst_var(x, old, new):
+    """Rename a variable in a surface term / condition."""
+    if isinstance(x, tuple):
+        if len(x) == 2 and x[0] == 'var' and x[1] == old:
+            return ('var', new)
+        return tuple(subst_var(y, old, new) for y in x)
+    return x
+
+
 def c09(report, rng, tier, findings):
     n = n_cases(tier, 160, 2000)
     cases = []
@@ -332,9 +410,25 @@ def c09(report, rng, tier, findings):
         case = gen.gen_case(rng, cfg, f'c{i}')
         if not any(has_pred(c) for c in case['cond']):
             continue
+        if rng.random() < 0.4:
+            # the predicate-bearing conditions over the first variable move into a sub-query that supplies its DOMAIN:
+            # x = let(T, domain=an(entity(z, conds(z)))); the explicit twin keeps them as conditions on x
+            v0 = case['vars'][0][0]
+            own = [c for c in case['cond'] if surface.cond_vars(c) <= {v0} and has_pred(c)]
+            if not own:
+                own = [(rng.choice(('pred', 'predc')), 'is_big', ('var', v0))]
+            if own:
+                # the enclosing query keeps only predicate-free conditions (its own tree has no predicate)
+                rest = [c for c in case['cond'] if c not in own and not has_pred(c)]
+                case = {**case, 'cond': own + rest}
+                twin = dict(case)
+                case = dict(case)
+                case['cond'] = rest or None
+                case['domq'] = {v0: [subst_var(c, v0, 60 + v0) for c in own]}
+                case['explicit'] = twin
         if quant == 'the':
             try:
-                k = len(surface.Oracle(case).rows())
+                k = len(surface.Oracle(case.get('explicit', case)).rows())
             except Exception:
                 continue
             if k != 1 and rng.random() < 0.7:
@@ -350,6 +444,7 @@ def c09(report, rng, tier, findings):
                        else canon(res['spec'], case))
     for c in cases:
         report.count('quant_' + c['quant'])
+        report.count('domain_from_subquery' if c.get('domq') else 'plain_domain')
     run_query_cases(report, cases, {'caching': (False, True), 'evals': 2, 'ambients': (None, 'query', 'rule')}, judge)
     return ['EqlModel.Props.C09', 'EqlModel.Props.C08'], [
         "the mode is read only by the patched constructors / predicate wrappers (hybrid_new, predicate.wrapper)",
@@ -563,7 +658,7 @@ def c10(report, rng, tier, findings):
             new = self.report.violations[n_before:]
             u = case['forall'][0]
             body_vars = set().union(*[surface.cond_vars(c) for c in case['forall'][1]])
-            if new and case.get('cond') and body_vars <= {u} and 'C05-F3' in self.findings:
+            if new and case.get('cond') and 'C05-F3' in self.findings:
                 keep = []
                 for what, payload in new:
                     off_ok = all(canon(o[1], case) == payload.get('expected') for k, cfg in res['impl'].items()
@@ -720,6 +815,8 @@ def c04_impl(job):
         probe.__enter__()
         try:
             b = impl.Built(case)
+            if opts.get('share_terms'):
+                b.share_terms = {}
             # snapshot of the user's data
             raws = {vid: [b.decode(v) for v in raw] for vid, _, raw in case['vars']}
             snap_objs = [dict(vars(o)) for o in b.objs]
